@@ -983,7 +983,12 @@ class Models(object):
             return None
         if n == 1:
             return [s]
+        ck = ("gsplit", s.get_id(), sep, maxsplit, right, n)
+        hit = E.path.refs.get(ck)
+        if hit is not None and hit[0].eq(s):
+            return hit[1]           # the decomposition is unique: reuse its Skolem parts
         parts = [E.fresh("part%d" % i, sym.S) for i in range(n)]
+        E.path.refs[ck] = (s, parts)
         joined = []
         for i, p in enumerate(parts):
             if i:
